@@ -4,6 +4,7 @@ results, and deep bit-level snapshots.  Used by the C17 workload.
 No PRNG and no clock in here: every generator is a pure function of (kind, k, form).
 """
 import math
+import re
 import struct
 
 import numpy as np
@@ -306,6 +307,9 @@ def classify(v):
 # --------------------------------------------------------------------------- #
 # deep bit-level snapshots
 
+_ADDR = re.compile(r' at 0x[0-9a-fA-F]+')
+
+
 def _fbits(x):
     return struct.pack('<d', float(x))
 
@@ -316,7 +320,7 @@ def snapshot(v, depth=0, seen=None):
         return ('deep',)
     if isinstance(v, np.ndarray):
         if v.dtype == object:
-            return ('ndobj', v.shape, tuple(repr(x) for x in v.ravel().tolist()))
+            return ('ndobj', v.shape, tuple(snapshot(x, depth + 1) for x in v.ravel().tolist()))
         return ('nd', v.shape, v.dtype.str, v.tobytes())
     if v is None or isinstance(v, (bool, str, bytes)):
         return ('lit', type(v).__name__, v)
@@ -336,7 +340,7 @@ def snapshot(v, depth=0, seen=None):
         pub = tuple((k, snapshot(d[k], depth + 1)) for k in sorted(d)
                     if not k.startswith('_'))
         return ('obj', type(v).__name__, pub)
-    return ('other', type(v).__name__, repr(v)[:200])
+    return ('other', type(v).__name__, _ADDR.sub(' at 0x?', repr(v)[:200]))
 
 
 def diff_path(a, b, path='$'):
